@@ -8,7 +8,7 @@ from ..refs import tree
 
 ID = "C18"
 RULE = ("calendars built through the API or parsed from generated text, with zoned values in DTSTART/DTEND/DUE/RECURRENCE-ID/RDATE/EXDATE (lists, periods), "
-        "FREEBUSY and explicit TZID parameters on arbitrary (X-, text) properties at depth <= 5; ids: known Olson ids, unknown ids, Windows names and "
+        "FREEBUSY and explicit TZID parameters on arbitrary (X-, text) properties at depth <= 5; ids: known Olson ids (UTC, Etc/UTC and GMT as literal TZID parameters among them), unknown ids, Windows names and "
         "'/'-prefixed ids; VTIMEZONEs already present drawn from {used, unused, unknown id, duplicate, without TZID}; 1-3 repeated calls with random "
         "date windows; both providers. Oracles: get_used_tzids() == the TZID parameters found by the R8 observation on every value of every nested "
         "component; get_missing_tzids() == used - present; neither raises; after add_missing_timezones() every plainly known used id has exactly one "
@@ -17,7 +17,9 @@ RULE = ("calendars built through the API or parsed from generated text, with zon
 ASSUMPTIONS = ["'plainly known' = zoneinfo can load the id as written; Windows names and '/'-prefixed ids may be treated either way, consistently (n VTIMEZONEs == 0 iff still missing)"]
 SOFT_S = {"quick": 16, "thorough": 300}
 CASE_TIMEOUT_S = 60
-KNOWN = ["Europe/Berlin", "America/New_York", "Asia/Kolkata", "Australia/Lord_Howe", "Africa/Cairo", "Pacific/Apia", "Europe/London", "America/Sao_Paulo", "Asia/Tokyo"]
+KNOWN = ["Europe/Berlin", "America/New_York", "Asia/Kolkata", "Australia/Lord_Howe", "Africa/Cairo", "Pacific/Apia", "Europe/London", "America/Sao_Paulo", "Asia/Tokyo",
+         # ids of UTC itself, written literally as a TZID parameter (values with a Z suffix carry no such parameter)
+         "UTC", "Etc/UTC", "GMT", "UTC"]
 UNKNOWN = ["Mars/Olympus", "Custom Zone 1", "Europe/Atlantis", "x"]
 AMBIGUOUS = ["europe/berlin", "AMERICA/NEW_YORK", "W. Europe Standard Time", "Eastern Standard Time", "/Europe/Berlin", "/mozilla.org/20050126_1/Europe/Berlin", "Tokyo Standard Time"]
 
